@@ -85,6 +85,15 @@ func drawRegistry(t *rapid.T, c *engine.Case) {
 
 // drawConfig draws the configuration part; ill-typed sections only when allowed.
 func drawConfig(t *rapid.T, c *engine.Case, allowIll bool) string {
+	kind := drawConfigInner(t, c, allowIll)
+	if c.Config != nil && len(c.Filters) > 0 {
+		// installed on the parent before filtering (the filtered registry has to inherit it), or on the result
+		c.ConfigFirst = rapid.Bool().Draw(t, "cfgfirst")
+	}
+	return kind
+}
+
+func drawConfigInner(t *rapid.T, c *engine.Case, allowIll bool) string {
 	hi := 4
 	if allowIll {
 		hi = 5
